@@ -358,10 +358,12 @@ def factory_chain(chk: core.Check, thorough: bool):
     if "TMucDigi" in streamers and "THltRaw" not in streamers:
         streamers["THltRaw"] = copy.deepcopy(streamers["TMucDigi"])     # BOSS: class THltRaw : public TRawData {} (no own members)
 
+    cur = {'S': streamers}
+
     def simple(cls, seen=()):
-        if cls in seen or cls not in streamers:
+        if cls in seen or cls not in cur['S']:
             return False
-        for el in streamers[cls]:
+        for el in cur['S'][cls]:
             if el["fTypeName"] == "BASE":
                 if el["fType"] == 66:
                     continue
@@ -377,7 +379,7 @@ def factory_chain(chk: core.Check, thorough: bool):
 
     def enc_class(cls, truth, referenced):
         body = struct.pack(">h", rng.choice([1, 2, 5]))
-        for el in streamers[cls]:
+        for el in cur['S'][cls]:
             if el["fTypeName"] == "BASE" and el["fType"] == 66:
                 bits = 0x03000000 | (rs.K_IS_REFERENCED if referenced else 0)
                 body += rs.enc_tobject(1, rng.getrandbits(31), bits, rng.getrandbits(16))
@@ -411,11 +413,45 @@ def factory_chain(chk: core.Check, thorough: bool):
         elif x is not None:
             out.append(float(x))
 
+    def variant_of(cls):
+        """the same class as written by another release: same member names, one member with another type (int <-> unsigned int, float <->
+        double) or one array with another length - the file's own streamer information decides the decoding"""
+        v = copy.deepcopy(streamers)
+        changed = None
+        for el in v[cls]:
+            if el["fTypeName"] == "BASE":
+                continue
+            swap = {3: 13, 13: 3, 5: 8, 8: 5, 2: 12, 12: 2}
+            base = el["fType"] if el["fArrayDim"] == 0 else el["fType"] - 20
+            if el["fArrayDim"] > 0 and changed is None:
+                el["fMaxIndex"] = list(el["fMaxIndex"]); el["fMaxIndex"][0] = int(el["fMaxIndex"][0]) + 1
+                el["fArrayLength"] = int(np.prod(el["fMaxIndex"][: el["fArrayDim"]])) if "fArrayLength" in el else None
+                if el.get("fArrayLength") is None:
+                    el.pop("fArrayLength", None)
+                changed = (el["fName"], "array length + 1")
+                break
+            if base in swap and changed is None:
+                el["fType"] = swap[base] + (0 if el["fArrayDim"] == 0 else 20)
+                names = {3: "int", 13: "unsigned int", 5: "float", 8: "double", 2: "short", 12: "unsigned short"}
+                el["fTypeName"] = names[swap[base]] if el["fArrayDim"] == 0 else el["fTypeName"]
+                el["fSize"] = {3: 4, 13: 4, 5: 4, 8: 8, 2: 2, 12: 2}[swap[base]] if "fSize" in el else el.get("fSize")
+                changed = (el["fName"], f"type {names[base]} -> {names[swap[base]]}")
+                break
+        return (v, changed) if changed else (None, None)
+
     n_done, skipped = 0, []
+    passes = []
     for path, cls in rio.bes3_branch2types.items():
+        cur['S'] = streamers
         if not cls.startswith("T") or not simple(cls):
             skipped.append(cls)
             continue
+        passes.append((path, cls, streamers, None))
+        v, changed = variant_of(cls)
+        if v is not None and (thorough or len(passes) % 3 == 0):
+            passes.append((path, cls, v, changed))       # read right after the original, same branch path, same member names
+    for path, cls, S_, changed in passes:
+        cur['S'] = S_
         for counts in ([[2, 0, 1, 3, 0], [0, 0, 0], [1], [0, 5, 0, 0, 2, 1, 0]] if thorough else [[2, 0, 1, 3, 0], [0, 4, 0]]):
             entries, truth_ev = [], []
             for c in counts:
@@ -431,11 +467,11 @@ def factory_chain(chk: core.Check, thorough: bool):
             top = {"fName": path.rsplit("/", 1)[1], "fTypeName": "TObjArray*"}
             chk.count(1, key=f"chain-{cls}-{counts}")
             try:
-                fac = uproot_custom.build_factory(top, streamers, path, called_from_top=True)
+                fac = uproot_custom.build_factory(top, cur['S'], path, called_from_top=True)
                 raw = uproot_custom.cpp.read_data(data, offs, fac.build_cpp_reader())
                 got = ak.Array(fac.make_awkward_content(raw)).tolist()
             except Exception as ex:
-                chk.failing_input("registered collection decoded through build_factory -> build_cpp_reader -> read_data", {"branch": path, "class": cls, "per_event_counts": counts, "entries_hex": [e.hex() for e in entries][:4]},
+                chk.failing_input("registered collection decoded through build_factory -> build_cpp_reader -> read_data", {"branch": path, "class": cls, "per_event_counts": counts, "class_layout_variant": changed, "entries_hex": [e.hex() for e in entries][:4]},
                                   f"{type(ex).__name__}: {str(ex)[:300]}", "the stored objects", "every registered collection branch yields exactly the objects stored (any per-event counts, referenced bits set or not)")
                 return
             ok = len(got) == len(truth_ev) and all(len(g) == len(t) for g, t in zip(got, truth_ev))
@@ -447,7 +483,7 @@ def factory_chain(chk: core.Check, thorough: bool):
                         if sorted(a) != sorted(b):
                             ok = False
             if not ok:
-                chk.failing_input("registered collection decoded through the factory chain: objects / member values", {"branch": path, "class": cls, "per_event_counts": counts},
+                chk.failing_input("registered collection decoded through the factory chain: objects / member values", {"branch": path, "class": cls, "per_event_counts": counts, "class_layout_variant": changed, "history": "the same branch was decoded just before with the other layout of the class"},
                                   str(got)[:600], str(truth_ev)[:600], "same number of objects per event, same order, every member the stored value")
                 return
             n_done += 1
